@@ -7,6 +7,54 @@ ids = [json.loads(l)["id"] for l in open(root + "/properties.jsonl")]
 
 # id -> (technique, level text, level note, design ref)
 CHECKS = {
+    "C06": (
+        "exhaustive enumeration of the 21 code identifiers with independent oracles: own (n,k)/degree tables, structural laws (quasi-cyclic, dual diagonal, no 4-cycle, girth), own re-expansion of pinned address tables + SHA-256 digest; generated messages through the encoder",
+        "The configuration space (21 codes) is enumerated completely; each matrix is checked against structural laws and an independent re-expansion of pinned tables; encoder output checked on generated messages. Exhaustive over configurations; exploration over messages.",
+        "Trusts the harness's transcription of Tables 5a/5b and the degree profiles; individual address-table entries are pinned from the tree (regression oracle), see DESIGN.md §7.",
+        "DESIGN.md §4 C06",
+    ),
+    "C07": (
+        "exhaustive enumeration of the 9 AR4JA codes and C2 with independent oracles: own M table, protograph degrees, M/4-circulant invariance, own bitset rank, own girth, own Blue-Book re-expansion of pinned theta/phi/circulant tables + digests; generated messages through the encoder",
+        "Exhaustive over the 10 configurations (largest matrices' rank and extra encoders in the thorough tier); exploration over messages.",
+        "Trusts the harness's transcription of the Blue Book block layouts and M table; table entries are pinned from the tree (regression oracle).",
+        "DESIGN.md §4 C07",
+    ),
+    "C12": (
+        "property-based testing (proptest) of BER configurations with a checker-supplied DecoderFactory as observation point; structural oracles (own GF(2) solve / re-encoding, exact zeros) and statistical oracles (+-7 sigma on recovered noise, 8PSK LLR inversion by Gauss-Newton)",
+        "Generated configurations; every recorded frame checked structurally; noise statistics tested against the expected sigma with +-7 sigma acceptance. Exploration only; the engine's RNG is not seedable (see level note).",
+        "The engine draws from rand::rng(): structural verdicts are draw-independent, statistical ones have per-test false-alarm probability < 3e-12. Hard decisions equal the sent bits at the generated noise levels (error < 1e-11 per bit).",
+        "DESIGN.md §4 C12",
+    ),
+    "C13": (
+        "property-based testing of schedules and configurations: every case in a child process pinned to 1..16 CPUs (worker count), scripted decoder with randomised delays and a digit-encoded iteration count as exact oracle for all statistics; fault injection with a deadlock-witness monitor",
+        "Sampled schedules (worker counts, delay patterns) with an exact accounting oracle; fault-injection cases enumerate the failure kinds; hangs are reported only with a positive witness. Exploration / fault sampling, not exhaustive over interleavings.",
+        "The harness owns worker count, delays and the decoder script, not the kernel scheduler or mpsc internals; a bare watchdog expiry is reported as exit 2, never as a violation.",
+        "DESIGN.md §4 C13",
+    ),
+    "C14": (
+        "property-based testing (proptest) against an own max-shifted log-sum-exp posterior with a derived tolerance; exhaustive over the 8 bit triples for the constellation; round trips on generated bit sequences",
+        "Generated samples/sigmas compared with an independent exact LLR; constellation enumerated exhaustively. Exploration only.",
+        "Trusts the harness's transcription of the DVB-S2 8PSK mapping (checked to be Gray and equally spaced); tolerance 64 eps (|r|/sigma^2 + 1).",
+        "DESIGN.md §4 C14",
+    ),
+    "C15": (
+        "exhaustive enumeration of interleaver shapes up to 12x12 (40x40 thorough) x direction + property-based testing of larger shapes and of puncturing patterns/lengths incl. indivisible lengths; index-formula oracle on distinct labels",
+        "Shapes enumerated exhaustively up to the stated bound, random beyond; puncturer on generated patterns. Exploration beyond the enumerated bound.",
+        "The interleaver has no error channel; the error clause is applied to the puncturer (Result API).",
+        "DESIGN.md §4 C15",
+    ),
+    "C19": (
+        "differential property testing through the exported C symbols (extern \"C\" declarations from the header), each generated handle/history in a child process; reference = fresh Rust decoder/encoder on the same alist; generated failing constructors",
+        "Generated (alist, name, pattern, call history) compared call by call with the Rust API; aborts are caught by process isolation. Exploration only.",
+        "Buffers have the documented lengths; reference decoder is built from the matrix parsed from the same alist text (order-sensitive arithmetics see the text's entry order).",
+        "DESIGN.md §4 C19",
+    ),
+    "C20": (
+        "exhaustive enumeration of dvbs2/ccsds/ccsds-c2 argument sets + property-based testing of peg, mackay-neal, systematic, encode and ber invocations of the binary built from the working tree; differential oracle = library result in-process; validity predicate for ber result lines",
+        "Code-generation subcommands enumerated completely (stdout byte-equal to the library's alist); other subcommands on generated arguments and files. Exploration beyond the enumerated part.",
+        "The binary is built by ./check from the working tree with the repository's release profile; the library functions used as reference are themselves judged by C06-C09/C16.",
+        "DESIGN.md §4 C20",
+    ),
     "C02": (
         "property-based testing (proptest): matrices built by class (staircase, near-staircase, invertible P*L*U tail, singular by construction, square, single row); oracle = own GF(2) rank of the tail + own syndrome, systematic prefix and linearity over all 2^k messages (k <= 8)",
         "Generated-input search against an independent GF(2) bitset elimination and syndrome. Exploration only.",
@@ -118,7 +166,7 @@ manifest = {
     ],
     "checks": checks,
     "not_applicable": [
-        {"property_id": pid, "reason": "check not built yet (work in progress; the technique applies, see DESIGN.md §4)"}
+        {"property_id": pid, "reason": "check not built yet (the technique applies, see DESIGN.md §4)"}
         for pid in ids if pid not in CHECKS
     ],
     "notes": "All checks: exit 0 held / 1 violation with 'VIOLATION property=<id> replay=<path>' / 2 no verdict. Genuine defects found are repaired by 'fix:' commits in /repo and listed in /verif/known_findings.txt.",
